@@ -525,8 +525,13 @@ def dump_check(rep, N_or_R, tier, is_plain=False):
               (P_FAST, bytes([0x40, 11, 1, 0, 5, 0x64, 0xFF, 0xFF])), (P_FAST, bytes([0x41, 0xFF, 0xFF, 0xFF, 0xFF, 0xFF, 0xFF, 0xFF])),
               (99999, bytes(8)), (P_SINGLE, bytes([2, 0x20, 0x4E, 0xFF, 0x7F, 0xFF, 0x7F, 0xFD])), (P_MULTI, bytes([0x13, 0x99, 0x10, 0, 0, 0, 0xFF, 0xFF]))]
     n = 0
-    for cfg in configs:
-        dec = M.decoder.NMEA2000Decoder(dump_pgns=list(cfg))
+    PQ_ = M.consts.PhysicalQuantities
+    prefs_all = {PQ_.TEMPERATURE: "C", PQ_.ANGLE: "deg", PQ_.PRESSURE: "bar", PQ_.SPEED: "kts"}
+    # every filter without unit preferences; the empty filter and the single-entry filters also with unit preferences
+    # (the dump must hold the JSON of the messages as they are returned, i.e. after conversion)
+    runs = [(cfg, {}) for cfg in configs] + [(cfg, prefs_all) for cfg in configs if len(cfg) <= 1]
+    for cfg, prefs in runs:
+        dec = M.decoder.NMEA2000Decoder(dump_pgns=list(cfg), preferred_units=dict(prefs))
         buf = io.StringIO()
         dec.dump_TextIOWrapper = buf
         expect = []
@@ -550,12 +555,13 @@ def dump_check(rep, N_or_R, tier, is_plain=False):
                     except Exception:
                         out.append("<not one JSON document: %d characters>" % len(l))
                 return out
-            bad = "dump holds %d line(s) %r, expected %d %r" % (got.count("\n"), ids_(got), len(expect), ids_("".join(expect)))
+            bad = "dump holds %d line(s) %r, expected %d %r%s" % (got.count("\n"), ids_(got), len(expect), ids_("".join(expect)),
+                                                                  " - same messages, different content" if ids_(got) == ids_("".join(expect)) else "")
         n += 1
         if bad is not None:
             if rep is None:
-                return True, "dump_pgns=%r: %s" % (list(cfg), bad)
-            rep.violation({"kind": "dump", "filter": repr(list(cfg))}, "dump_pgns=%r: %s" % (list(cfg), bad), {"kind": "dump", "filter": list(cfg)})
+                return True, "dump_pgns=%r%s: %s" % (list(cfg), " with unit preferences" if prefs else "", bad)
+            rep.violation({"kind": "dump", "filter": repr(list(cfg)), "prefs": bool(prefs)}, "dump_pgns=%r%s: %s" % (list(cfg), " with unit preferences" if prefs else "", bad), {"kind": "dump", "filter": list(cfg)})
     if rep is None:
         return False, "all %d dump filters faithful" % n
     rep.count("dump_filters", n)
